@@ -68,7 +68,7 @@ PROPS = {
              "whole partition lattice, exact length against a guard page, ASan+UBSan build; (b) the C03 families in the sanitizer build; (c) after every distinct "
              "(outcome, parser state) of those graphs: json_tokener_reset then 30 probe texts and probe/reset/probe sequences compared with a new parser; "
              "non-trivial = distinct (text, flags) not rejected at its first byte",
-        bound=dict(quick="arbitrary bytes <= 2; C03 quick families F2 (scanner alphabets) and F3 (documents/streams)", thorough="arbitrary bytes <= 3 (reduced third byte); all C03 thorough families incl. F1 token sequences"),
+        bound=dict(quick="arbitrary bytes <= 2; C03 quick families F2 (scanner alphabets) and F3 (documents/streams)", thorough="arbitrary bytes <= 3 (third byte from 32 class representatives); C03 quick-size families incl. F1 token sequences <= 3, all 30 probes and probe/reset/probe sequences"),
         states_stat="nodes", transitions_stat="edges",
         technique="explicit-state exploration of parse/reset/parse histories on the real tokener under ASan/UBSan with a guard page, fresh-parser differential oracle",
         claim="every call in every partition of every enumerated byte string terminated with exactly one of the three outcomes, within bounds, without a sanitizer report; "
